@@ -18,7 +18,10 @@ import (
 )
 
 func newWorld(R *vcommon.Report, i int, rng *rand.Rand, memSize uint64) *World {
-	fs := vfs.NewMem()
+	var fs vfs.FS = vfs.NewMem()
+	if rng.IntN(2) == 0 {
+		fs = &slowManifestFS{FS: fs, seed: rng.Uint64()}
+	}
 	db, o, err := openDB(rng, fs, memSize)
 	if err != nil {
 		R.Violate("open-error", err.Error(), nil, nil)
@@ -277,6 +280,13 @@ func TestVerifC42(t *testing.T) {
 				mkN++
 			})
 		}
+		spawn("compact-private", func(r *rand.Rand) {
+			// compactions that overlap the span the ingest-excise goroutine excises
+			if err := w.DB.Compact(context.Background(), []byte("z"), []byte("zz"), r.IntN(2) == 0); err != nil {
+				w.fail("compact-error", "Compact(z,zz): %v", err)
+			}
+			time.Sleep(time.Millisecond)
+		})
 		ckN := 0
 		spawn("checkpoint", func(r *rand.Rand) {
 			ckN++
